@@ -474,3 +474,37 @@ def c18_6(run):
     if n < 5:
         raise Inconclusive(f'vacuity: {n} paths')
     run.require_reached(*run.cur.reach)
+
+
+# ----------------------------------------------------------------------------------------------------------------- C18-7
+@obligation('C18', 'C18-7 is_transfer_source_zone / is_refund_source_zone: an asset counts as returning exactly when its leading trace segment is this (port, channel) — decided through astria-core\'s segment comparison of BOTH parts; the refund predicate is its negation')
+def c18_7(run):
+    import re
+    LP, LC = z3.Bool('leading_port_matches'), z3.Bool('leading_channel_matches')
+
+    def h(pred, name):
+        def hook(ctx):
+            a = ctx.ex.deref_val(ctx.st, ctx.args[0]); b = ctx.ex.deref_val(ctx.st, ctx.args[1])
+            ctx.st.log.append((name, a.attrs.get('ident') if isinstance(a, Obj) else None, b.attrs.get('ident') if isinstance(b, Obj) else None))
+            return [(None, pred)]
+        return hook
+    hooks = [(re.compile(r'TracePrefixed::has_leading_port(::<.*>)?$'), h(LP, 'port')), (re.compile(r'TracePrefixed::has_leading_channel(::<.*>)?$'), h(LC, 'channel'))]
+    ex, W = A.engine(extra_hooks=hooks)
+    run.bound(inputs='arbitrary trace-prefixed asset, port and channel; the two segment comparisons of astria-core (string equality of the leading port / channel) are uninterpreted predicates',
+              note='an implementation that decides this through other string operations is outside the modelled fragment and is reported as inconclusive, not as a violation')
+    n = 0
+    for fname, neg in (('is_transfer_source_zone', False), ('is_refund_source_zone', True)):
+        f = ex.find(rf'(^|::){fname}$')
+        asset = Obj('denom::TracePrefixed', kind='opaque'); asset.attrs['ident'] = 'asset'
+        port = Obj('PortId', kind='opaque'); port.attrs['ident'] = 'port'; chan = Obj('ChannelId', kind='opaque'); chan.attrs['ident'] = 'channel'
+        for i, p in enumerate(run.explore(ex, ex.start(f, [B.cell(asset), B.cell(port), B.cell(chan)]))):
+            if p.kind != 'return':
+                run.prove(f'{fname}: no panic [path {i}]', p.pc, z3.BoolVal(False), detail=p.info); continue
+            n += 1
+            want = z3.And(LP, LC)
+            run.prove(f'{fname} == {"not " if neg else ""}(leading port matches and leading channel matches) [path {i}]', p.pc, p.result == (z3.Not(want) if neg else want))
+            for e in p.log:
+                run.prove(f'{fname}: the comparison is made for THIS asset against the given {e[0]} [path {i}]', p.pc, z3.BoolVal(e[1] == 'asset' and e[2] == e[0]))
+    if n < 2:
+        raise Inconclusive('vacuity')
+    run.require_reached(*run.cur.reach)
